@@ -1,13 +1,15 @@
 import NettyVerif.Proofs.Chan
+import NettyVerif.Proofs.Heap
 /-! # C10 — Write snapshot semantics
 
 In the Chan LTS a payload is a *value* fixed at the acceptance step (copy-on-enqueue; the sync path
 hands the caller's bytes to the transport inside the call).  The theorems say that, this being so,
 nothing that happens later — in particular nothing a caller does after its call returned — can
-change what is transmitted: the wire only ever consists of accepted values, in order.  That the real
-code really takes the snapshot (copies before enqueueing, recycles pooled buffers only after the
-transport write) is what the tie checks: callers overwrite their buffers right after every call and
-the property predicate compares the transport bytes with the call-time payload. -/
+change what is transmitted: the wire only ever consists of accepted values, in order.  Why the
+value is fixed is the subject of the heap model (Model/Heap.lean): buffers with owners, callers and
+pool users scribbling on what they own, copy-on-enqueue into a pooled buffer, recycling after the
+transport write.  The tie runs callers that overwrite their buffers right after every call and a
+foreign pool user that obtains, scribbles on and returns buffers of every size class. -/
 namespace NettyVerif.C10
 open NettyVerif.Chan
 variable {α : Type}
@@ -25,7 +27,48 @@ theorem C10_wire_is_snapshot (sync : Bool) (cap : Nat) (untilW : Bool) (acts : L
 theorem C10_accepted_immutable (s s' : St α) (a : Act α) (h : step s a = some s') : s.accepted <+: s'.accepted := by
   cases a <;> simp only [step] at h <;> (repeat' split at h) <;> simp at h <;> subst h <;> simp
 
+/-! ## why the value is fixed: buffer ownership -/
+open NettyVerif.Heap in
+/-- **snapshot semantics over a heap**: callers overwrite their buffers whenever they like, other
+    goroutines obtain pooled buffers, scribble on them and return them, in any interleaving with
+    the write calls and the sender; as long as every write copies into a pooled buffer and the
+    sender returns buffers only after the transport write, what reaches the transport is exactly
+    the call-time payloads, in acceptance order, and every buffer the channel holds still has its
+    call-time content -/
+theorem C10_heap_snapshot (acts : List Heap.Act) (s : Heap.St) (hsound : ∀ a ∈ acts, a.sound = true)
+    (hr : Heap.run {} acts = some s) :
+    s.wire <+: s.accepted ∧ s.accepted = s.wire ++ s.batch.map s.snap ++ s.q.map s.snap ∧
+    ∀ id ∈ s.q ++ s.batch, s.heap id = s.snap id := by
+  have h := Heap.hinv_run acts {} s hsound Heap.hinv_init hr
+  refine ⟨?_, h.fifo, fun id hid => (h.owned id hid).2⟩
+  rw [h.fifo, List.append_assoc]; exact List.prefix_append _ _
+
+namespace Witness
+open NettyVerif.Heap
+
+/-- buffer 0 belongs to caller 1 and holds [1, 2]; everything else is idle in the pool -/
+def st0 : Heap.St := { heap := upd (fun _ => []) 0 [1, 2], owner := upd (fun _ => .pool) 0 (.caller 1) }
+
+/-- copy-on-enqueue: the caller scribbles right after its call, the transport still gets [1, 2] -/
+theorem copy_protects :
+    (Heap.run st0 [.write 1 0 5 true, .scribble (.caller 1) 0 [9, 9], .recv, .writev]).map (fun s => (s.wire, s.accepted)) =
+      some ([[1, 2]], [[1, 2]]) := by decide
+
+/-- without the copy the caller's later bytes are sent -/
+theorem C10_no_copy_sends_later_bytes :
+    (Heap.run st0 [.write 1 0 5 false, .scribble (.caller 1) 0 [9, 9], .recv, .writev]).map (fun s => (s.wire, s.accepted)) =
+      some ([[9, 9]], [[1, 2]]) := by decide
+
+/-- a buffer returned to the pool before the transport write is handed to somebody else who overwrites it -/
+theorem C10_early_recycle_corrupts :
+    (Heap.run st0 [.write 1 0 5 true, .recv, .put true, .poolGet 7 5, .scribble (.user 7) 5 [9], .writev]).map
+      (fun s => (s.wire, s.accepted)) = some ([[9]], [[1, 2]]) := by decide
+end Witness
+
 end NettyVerif.C10
 
 #print axioms NettyVerif.C10.C10_wire_is_snapshot
 #print axioms NettyVerif.C10.C10_accepted_immutable
+#print axioms NettyVerif.C10.C10_heap_snapshot
+#print axioms NettyVerif.C10.Witness.C10_no_copy_sends_later_bytes
+#print axioms NettyVerif.C10.Witness.C10_early_recycle_corrupts
